@@ -77,6 +77,19 @@ impl MachineState {
 
             parser.add_lines_read(prior_num_lines_read);
 
+            // nothing but layout up to the end of the stream is a plain end
+            // of file, not a term that was cut short.
+            match parser.lexer.scan_for_layout() {
+                Ok(_) => {
+                    if let Err(e) = parser.lexer.lookahead_char() {
+                        if e.is_unexpected_eof() {
+                            return Err(CompilationError::from(e));
+                        }
+                    }
+                }
+                Err(e) => return Err(error_after_read_term(e, prior_num_lines_read, &parser)),
+            }
+
             let term = parser
                 .read_term(&op_dir, Tokens::Default)
                 .map_err(|err| error_after_read_term(err, prior_num_lines_read, &parser))?; // CompilationError::from
